@@ -15,3 +15,12 @@ Theorem C39_isint : forall x, regular x -> (mpf_isint x = true <-> exists n : Z,
 Proof. exact mpf_isint_spec. Qed.
 Theorem C39_ldexp_exact : forall x n, regular x -> rv (ctx_ldexp x n) = (rv x * bpow radix2 n)%R /\ regular (ctx_ldexp x n).
 Proof. exact ldexp_exact. Qed.
+
+(* ---- nint_distance: nearest integer and exact magnitude of the distance ---- *)
+From MP Require Import Proofs.NintDist.
+Theorem C39_nint_distance : forall re, regular re ->
+  exists n d, nint_distance_mpf re = Ok (n, d) /\ nd_ok (rv re) n d.
+Proof. exact nint_distance_spec. Qed.
+Print Assumptions C39_nint_distance.
+Example C39_half_integer : nint_distance_mpf (Mpf 1 5 (-1) 3) = Ok (-3, XFin 0).   (* -2.5 -> -3 (away from zero), |x - n| = 1/2 in [2^-1, 2^0) *)
+Proof. vm_compute. reflexivity. Qed.
